@@ -23,10 +23,17 @@ KERNELS = {
     "apply_spans_count": {"owner": "C08"},
     "apply_spans_first": {"owner": "C08"},
     "apply_spans_last": {"owner": "C08"},
+    "apply_spans_max": {"owner": "C08"},
+    "apply_spans_min": {"owner": "C08"},
+    "apply_spans_index_of_first": {"owner": "C08"},
+    "apply_spans_index_of_last": {"owner": "C08"},
+    "apply_spans_index_of_min": {"owner": "C08"},
+    "apply_spans_index_of_max": {"owner": "C08"},
 }
+C08_NOSRC = ("apply_spans_count", "apply_spans_index_of_first", "apply_spans_index_of_last")
 
-QUICK_DERIVED = 150
-QUICK_RANDOM = 150
+QUICK_DERIVED = 270
+QUICK_RANDOM = 270
 
 
 def arr(xs):
@@ -94,7 +101,7 @@ def random_c08(rng, n_cases):
         else:                                          # anything, negative entries included
             sp = [rng.randrange(-2, n + 3) for _ in range(rng.randrange(0, 5))]
         unsafe = not c08_safe(sp, n)
-        if k == "apply_spans_count":
+        if k in C08_NOSRC:
             args = [arr(sp), NONE]
             unsafe = False                              # reads spans[i], spans[i+1] for i < len - 1 only
             if rng.random() < 0.3 and len(sp) >= 1:
@@ -125,7 +132,12 @@ def extra_cases(owner, cases, tier, rng):
                 seen.add(key)
                 derived.append(g)
     if len(derived) > nd:
-        derived = rng.sample(derived, nd)
+        by_kernel = {}
+        for c in derived:
+            by_kernel.setdefault(c["kernel"], []).append(c)
+        per = max(1, nd // len(by_kernel))
+        derived = [c for k in sorted(by_kernel) for c in
+                   (rng.sample(by_kernel[k], per) if len(by_kernel[k]) > per else by_kernel[k])]
     out = derived + (RANDOM[owner](rng, nr) if owner in RANDOM else [])
     for i, c in enumerate(out):
         c["_n"] = i
